@@ -13,10 +13,12 @@ import (
 	"errors"
 	"fmt"
 	"os"
+	"os/signal"
 	"path/filepath"
 	"runtime"
 	"runtime/pprof"
 	"strconv"
+	"syscall"
 	"time"
 
 	"verif/internal/build"
@@ -139,6 +141,13 @@ func runCheck(id, tier string) int {
 		return infraExit(err)
 	}
 	defer tree.Close()
+	sigc := make(chan os.Signal, 1)
+	signal.Notify(sigc, syscall.SIGINT, syscall.SIGTERM, syscall.SIGHUP)
+	go func() {
+		<-sigc
+		tree.Close()
+		os.Exit(2)
+	}()
 	fmt.Printf("verif: built scratch world in %.1fs (instrumented=%v)\n", tree.BuildSeconds, tree.Instrumented)
 	if tree.InstError != "" {
 		fmt.Printf("verif: instrumentation unavailable, falling back to the stock tree: %s\n", tree.InstError)
